@@ -15,6 +15,8 @@ fn pat_string(p: &Value) -> String {
             "dyn" => s.push_str(&format!("{{{}}}", el["name"].as_str().unwrap())),
             "dig" => s.push_str(&format!("{{{}:[0-9]+}}", el["name"].as_str().unwrap())),
             "ab" => s.push_str(&format!("{{{}:[ab]+}}", el["name"].as_str().unwrap())),
+            // a custom regex that brings a capturing group of its own
+            "grp" => s.push_str(&format!("{{{}:(a|1)+}}", el["name"].as_str().unwrap())),
             "tail" => s.push_str(&format!("{{{}}}*", el["name"].as_str().unwrap())),
             k => panic!("element {k}"),
         }
